@@ -195,7 +195,18 @@ class C14(Property):
     id = "C14"
     title = "Path expressions select what the documented path syntax denotes"
     proof_module = "Proofs.C14"
-    theorems = []
+    theorems = [
+        "Flatland.C14.Proofs.evalOps_denotes",
+        "Flatland.C14.Proofs.tokenize_noZero",
+        "Flatland.C14.Proofs.find_denotes",
+        "Flatland.C14.Proofs.single_spec",
+        "Flatland.C14.Proofs.pySlice_negidx",
+        "Flatland.C14.Proofs.denOps_compile",
+        "Flatland.C14.Proofs.canonicalize_sound",
+        "Flatland.C14.Proofs.eval_denotes",
+        "Flatland.C14.Proofs.eval_denotes_raw",
+        "Flatland.C14.Proofs.C14_full_fails",
+    ]
     generated_obligations = []
     trusted_base = [
         "Python's int(str) grammar, list slicing and `re` semantics of the two pinned regexes are reproduced as "
